@@ -390,13 +390,14 @@ def call_c13(case):
     """case: {s, langs, given, defaults, settings, region: [lang, region] | null}"""
     st = decode_settings(case.get("settings") or {})
     res = {"exc": "", "singles": [], "order": case["order"]}
+    via = case.get("via", "languages")      # the selection is passed as languages=[...] or as locales=[...]
     try:
         for L in case["order"]:
-            res["singles"].append(_ddp_outcome(case["s"], dict(st), languages=[L]))
-        res["multi"] = _ddp_outcome(case["s"], dict(st), languages=list(case["langs"]), use_given_order=bool(case["given"]))
+            res["singles"].append(_ddp_outcome(case["s"], dict(st), **{via: [L]}))
+        res["multi"] = _ddp_outcome(case["s"], dict(st), use_given_order=bool(case["given"]), **{via: list(case["langs"])})
         st2 = dict(st)
         st2["DEFAULT_LANGUAGES"] = list(case["defaults"])
-        res["multidef"] = _ddp_outcome(case["s"], st2, languages=list(case["langs"]), use_given_order=bool(case["given"]))
+        res["multidef"] = _ddp_outcome(case["s"], st2, use_given_order=bool(case["given"]), **{via: list(case["langs"])})
         res["auto"] = _ddp_outcome(case["s"], dict(st))
         if res["auto"]["loc"]:
             from dateparser.data import language_order
